@@ -349,6 +349,23 @@ def sym_newton(func, x0, fprime=None, args=(), tol=1.48e-8, maxiter=50, fprime2=
             v = fresh("lam_cw")
             fact(v > 0)
             root[i] = Sym(v)
+        if ENG.witness is not None:
+            # concolic mode: the witness value of the root is the numeric root at the witness
+            from .evalterm import evaluate
+            import math
+            from scipy.optimize import newton as _real_newton
+            fargs = [_np.array([evaluate(_t(c), ENG.witness, ENG.wfuncs) for c in _np.asarray(a, dtype=object).ravel()])
+                     for a in args]
+            x0f = _np.array([evaluate(_t(c), ENG.witness, ENG.wfuncs) for c in x0a.ravel()])
+
+            def ffloat(lam, re_, k_, d_):
+                return lam ** (-0.5) + 2 * _np.log10(2.51 / (re_ * _np.sqrt(lam)) + k_ / (3.71 * d_))
+            try:
+                rt = _np.atleast_1d(_real_newton(ffloat, x0f, args=tuple(fargs), maxiter=200, tol=1e-13))
+            except Exception:
+                rt = x0f
+            for j, c in enumerate(root.ravel()):
+                ENG.witness[c.t.decl().name()] = float(rt[j])
         val = func(root, *args)
         for i in _np.ndindex(x0a.shape):
             fact(_t(val[i]) == 0)
